@@ -410,6 +410,19 @@ impl Sim {
         let absn = self.abs_need(&a, &need);
         let adv = proj_adv_all(&self.nodes[s].bookie, self.ids[s], &self.ids).await;
         let msgs = verif_process_sync(self.nodes[s].agent.pool().clone(), self.nodes[s].bookie.clone(), vec![vec![(a, vec![need])]]).await?;
+        if probe {
+            // a need no honest client computes (e.g. seqs beyond last_seq): its answer is judged, but it is not a message
+            // an honest network carries, so it never becomes deliverable
+            let mut created = vec![];
+            for m in msgs {
+                if let SyncMessage::V1(SyncMessageV1::Changeset(cv)) = m {
+                    created.push(self.abs_msg(0, &cv));
+                }
+            }
+            let post = self.project(s).await?;
+            self.emit(json!({"op": "probe", "need": absn}), s, post, json!({"created": created}));
+            return Ok(vec![]);
+        }
         let mut created = vec![];
         let mut ids = vec![];
         for m in msgs {
